@@ -57,8 +57,11 @@ func vpC13Item(shape int, id IRI) Item {
 		x = vpPopulated(vpTypeIndex("Question"))
 	case 8:
 		x = vpPopulated(vpTypeIndex("OrderedCollection"))
-	default:
+	case 9:
 		x = vpPopulated(vpTypeIndex("Place"))
+	default: // a member whose own lists name an addressee twice
+		z := IRI("https://h.ex/zz")
+		x = &Object{Type: NoteType, To: ItemCollection{z, z}, Tag: ItemCollection{&Object{ID: z, Type: NoteType}, z}}
 	}
 	vpSetID(x, id)
 	return x
@@ -250,8 +253,8 @@ func vpH_C13_step_coll()       { vpC13Step(2, 2, 2) }
 func vpH_C13_step_ocoll()      { vpC13Step(3, 2, 2) }
 func vpH_C13_step_page()       { vpC13Step(4, 2, 2) }
 func vpH_C13_step_opage()      { vpC13Step(5, 2, 2) }
-func vpH_C13_step_rich_items() { vpC13Step(0, 1, -6) }
-func vpH_C13_step_rich_ocoll() { vpC13Step(3, 1, -6) }
+func vpH_C13_step_rich_items() { vpC13Step(0, 1, -7) }
+func vpH_C13_step_rich_ocoll() { vpC13Step(3, 1, -7) }
 
 // ids that differ only in host, only in port, or only in a query value
 func vpH_C13_step_id_forms() {
